@@ -1,5 +1,7 @@
 """C05 - concurrent pack writers and packers never lose committed data."""
 
+import os
+import re
 import shutil
 import sys
 import traceback
@@ -61,7 +63,19 @@ def _known():
 
 
 class Obs:
+    def makers(self, name):
+        """Actors that allocated a pack of this (content-hash) name or wrote
+        index files under it."""
+        w = set(self.allocated.get(name, ()))
+        if self.sch is not None:
+            w |= self.sch.writers.get(name, set())
+        return sorted(w)
+
+    def made_twice(self, name):
+        return len(self.makers(name)) >= 2
+
     def __init__(self, shared):
+        self.sch = None
         self.shared = shared
         self.committed = []        # (actor, revision id)
         self.in_save = set()
@@ -147,6 +161,34 @@ def _patches(obs):
             obs.shadow[id(self)] = _read_nodes(self, obs.shared)
         return first
 
+    o_plan = RPC.plan_autopack_combinations
+
+    class _ByName:
+        """Stands in for a Pack while the autopack plan is sorted: packs with
+        the same revision count compare by NAME instead of by object address
+        (bzrformats' Pack.__lt__), so that a schedule replays.  Either order is
+        one the subject can produce."""
+
+        def __init__(self, pack):
+            self.pack = pack
+
+        def __lt__(self, other):
+            return self.pack.name < other.pack.name
+
+        def __gt__(self, other):
+            return self.pack.name > other.pack.name
+
+        def __eq__(self, other):
+            return self.pack is other.pack
+
+        def __hash__(self):
+            return hash(self.pack.name)
+
+    def plan(self, existing_packs, pack_distribution):
+        ops = o_plan(self, [(c, _ByName(p)) for c, p in existing_packs],
+                     pack_distribution)
+        return [[n, [w.pack for w in ws]] for n, ws in ops]
+
     o_alloc = RPC.allocate
 
     def allocate(self, a_new_pack):
@@ -177,6 +219,7 @@ def _patches(obs):
             mock.patch.object(RPC, "_unlock_names", unlock_names),
             mock.patch.object(RPC, "reload_pack_names", reload),
             mock.patch.object(RPC, "allocate", allocate),
+            mock.patch.object(RPC, "plan_autopack_combinations", plan),
             mock.patch.object(RPC, "ensure_loaded", ensure_loaded),
             mock.patch.object(RPC, "_restart_autopack", restart_a),
             mock.patch.object(RPC, "_restart_pack_operations", restart_p)]
@@ -187,17 +230,28 @@ def _fresh_check(obs, where, full=False):
     from breezy import repository as _r
     repo = _r.Repository.open(obs.shared)
     obs.checks += 1
-    import os
-    listed = sorted(n for n, _v in _read_nodes(repo._pack_collection,
-                                                obs.shared))
-    gone = [n for n in listed if not os.path.exists(
-        obs.shared + "/.bzr/repository/packs/%s.pack" % n)]
+    base = obs.shared + "/.bzr/repository/"
+    sfx = [".rix", ".iix", ".tix", ".six"] + (
+        [".cix"] if repo._format.supports_chks else [])
+    nodes = sorted(_read_nodes(repo._pack_collection, obs.shared))
+    listed = [n for n, _v in nodes]
+    gone = []
+    for n, value in nodes:
+        bad = [] if os.path.exists(base + "packs/%s.pack" % n) else ["pack"]
+        for x, size in zip(sfx, value.split(b" ")):
+            ip = base + "indices/" + n + x
+            if not os.path.exists(ip):
+                bad.append(x + " missing")
+            elif os.path.getsize(ip) != int(size):
+                bad.append("%s has %d bytes, listed %d" % (
+                    x, os.path.getsize(ip), int(size)))
+        if bad:
+            gone.append([n, bad])
     if gone:
-        twice = [n for n in gone if len(obs.allocated.get(n, ())) >= 2]
+        twice = [n for n, _b in gone if obs.made_twice(n)]
         check(False, COLLISION if twice else "C05/listed-pack-missing",
               [where, {"listed": listed, "missing": gone,
-                       "created_by": {n: sorted(obs.allocated.get(n, ()))
-                                      for n in gone}}])
+                       "created_by": {n: obs.makers(n) for n, _b in gone}}])
     with repo.lock_read():
         ids = set(repo.all_revision_ids())
         want = [rid for _a, rid in obs.committed]
@@ -277,6 +331,21 @@ def _actor(obs, name, prog, shared, srcpath):
     raise ValueError(kind)
 
 
+_PACKFILE = re.compile(r"([0-9a-f]{32})\.(rix|iix|tix|six|cix|pack)")
+
+
+def _twin_read(obs, e):
+    """[pack name, makers] when the exception is a failed or short READ of a
+    pack / index file whose content-hash name was produced by two different
+    actors in this schedule (the root cause of COLLISION); else None."""
+    if type(e).__name__ not in ("NoSuchFile", "ShortReadvError"):
+        return None
+    m = _PACKFILE.search(str(e))
+    if m is None or not obs.made_twice(m.group(1)):
+        return None
+    return [m.group(1), obs.makers(m.group(1))]
+
+
 def _tb_has(e, func):
     return any(fr.name == func for fr in traceback.extract_tb(e.__traceback__))
 
@@ -298,6 +367,7 @@ def run(case, env):
               if a < len(case["actors"])}
     sw_steps = {s: k for s, k in case["switch_steps"]}
     sch = cs.PolicyScheduler(sw_steps, sw_ops)
+    obs.sch = sch
     actors = {NAMES[i]: _actor(obs, NAMES[i], p, shared, srcpath)
               for i, p in enumerate(case["actors"])}
     patches = _patches(obs) + [
@@ -335,6 +405,16 @@ def run(case, env):
             # (names are content hashes); the operation is refused, nothing is
             # lost - the final-state oracles below still apply
             refused.append("identical-pack-already-listed")
+            continue
+        twin = _twin_read(obs, e)
+        if twin:
+            # a read met the identical-name twin of a listed pack while the
+            # second maker was (re)writing or the obsoleter was moving it
+            sig = COLLISION
+            if sig not in _known():
+                raise Expect(sig, [a, prog, twin, str(e)[:200]])
+            noted.append((sig, [a, prog, twin, str(e)[:200]]))
+            broken = True
             continue
         if tname == "NoSuchFile" and _tb_has(e, "_create_pack_from_packs"):
             step = _packer_step(e)
